@@ -119,6 +119,13 @@ class _World:
             def __len__(self):       # instances are falsy (an empty container-like object)
                 return 0
 
+            def __setattr__(self, name, value):
+                # a class that customises attribute assignment (a frozen record): the cache lives in the instance
+                # `__dict__`, which the descriptor writes directly - it must never go through `setattr`
+                if name == "data":
+                    raise AttributeError("cannot assign to field 'data'")
+                object.__setattr__(self, name, value)
+
             data = deco(getter)
 
         self.insts = [C(i) for i in range(case.get("ninst", 2))]
